@@ -154,3 +154,85 @@ package avfs
 //@   ensures[C01,C02] (r0&OpenAppend != 0) == (flag&os.O_APPEND != 0)
 //@   ensures[C01,C02] (r0&OpenTruncate != 0) == (flag&os.O_TRUNC != 0)
 //@   modifies nothing
+
+// ---- pathiterator.go: cursor arithmetic (C04, C13) -------------------------------------------
+
+//@ type PathIterator
+//@   inv[C04,C13] 0 <= self.volumeNameLen && self.volumeNameLen <= 281474976710656
+
+// positioned on a part: what Next() == true establishes
+//@ pred piOnPart(pi *PathIterator) := pi.volumeNameLen < pi.start && pi.start <= pi.end && pi.end <= len(pi.path)
+
+//@ func (*PathIterator).Next
+//@   requires pi.end >= pi.volumeNameLen && pi.end <= 281474976710657
+//@   ensures[C04,C13] pi.start == old(pi.end) + 1
+//@   ensures[C04,C13] r0 == (old(pi.end) + 1 < len(pi.path))
+//@   ensures[C04,C13] r0 ==> piOnPart(pi) && (pi.end == len(pi.path) || pi.path[pi.end] == pi.pathSeparator)
+//@   ensures[C04,C13] r0 ==> forall j int :: pi.start <= j && j < pi.end ==> pi.path[j] != pi.pathSeparator
+//@   ensures[C04,C13] !r0 ==> pi.end == pi.start
+//@   modifies pi.start, pi.end
+
+//@ func (*PathIterator).Part
+//@   requires piOnPart(pi)
+//@   ensures[C04,C13] r0 == substr(pi.path, pi.start, pi.end)
+//@   modifies nothing
+
+//@ func (*PathIterator).IsLast
+//@   ensures[C04,C13] r0 == (pi.end == len(pi.path))
+//@   modifies nothing
+
+//@ func (*PathIterator).Left
+//@   requires 0 <= pi.start && pi.start <= len(pi.path)
+//@   ensures[C13] r0 == substr(pi.path, 0, pi.start)
+//@   modifies nothing
+
+//@ func (*PathIterator).Right
+//@   requires 0 <= pi.end && pi.end <= len(pi.path)
+//@   ensures[C13] r0 == substr(pi.path, pi.end, len(pi.path))
+//@   modifies nothing
+
+//@ func (*PathIterator).LeftPart
+//@   requires 0 <= pi.end && pi.end <= len(pi.path)
+//@   ensures[C13] r0 == substr(pi.path, 0, pi.end)
+//@   modifies nothing
+
+//@ func (*PathIterator).RightPart
+//@   requires 0 <= pi.start && pi.start <= len(pi.path)
+//@   ensures[C13] r0 == substr(pi.path, pi.start, len(pi.path))
+//@   modifies nothing
+
+//@ func (*PathIterator).Reset
+//@   ensures[C04,C13] pi.end == pi.volumeNameLen
+//@   modifies pi.end
+
+//@ func (*PathIterator).VolumeName
+//@   requires pi.volumeNameLen <= len(pi.path)
+//@   ensures[C13] r0 == substr(pi.path, 0, pi.volumeNameLen)
+//@   modifies nothing
+
+//@ func (*PathIterator).VolumeNameLen
+//@   ensures[C13] r0 == pi.volumeNameLen
+//@   modifies nothing
+//@ func (*PathIterator).Path
+//@   ensures[C13] r0 == pi.path
+//@   modifies nothing
+//@ func (*PathIterator).Start
+//@   ensures[C13] r0 == pi.start
+//@   modifies nothing
+//@ func (*PathIterator).End
+//@   ensures[C13] r0 == pi.end
+//@   modifies nothing
+
+// ReplacePart: the link target is spliced between Left and Right with the file system's Join; the
+// cursor is either reset to the volume (the caller must restart at the root) or moved just before
+// the first spliced part.
+//@ func (*PathIterator).ReplacePart
+//@   requires piOnPart(pi) && pi.vfs != nil
+//@   ensures[C04] r0 ==> pi.end == pi.volumeNameLen
+//@   ensures[C04] !r0 ==> pi.end == pi.start - 1 && pi.start == old(pi.start) && pi.start < len(pi.path)
+//@   modifies pi.path, pi.end
+
+//@ func NewPathIterator
+//@   requires vfs != nil
+//@   ensures[C04,C13] fresh(r0) && r0.path == path && r0.vfs == vfs && r0.end == r0.volumeNameLen && 0 <= r0.volumeNameLen && r0.volumeNameLen <= len(path) && r0.pathSeparator == vfs.PathSeparator()
+//@   modifies nothing
